@@ -126,6 +126,9 @@ func (m *Machine) zero(t types.Type) Value {
 		if u.Info()&types.IsComplex != 0 {
 			return FloatV(0)
 		}
+		if u.Kind() == types.Invalid {
+			return nil // unused range variable
+		}
 		m.unsupported("zero of basic " + u.String())
 	case *types.Pointer:
 		return (*Cell)(nil)
